@@ -92,7 +92,7 @@ type c07Action struct {
 	Hours int    `json:"hours,omitempty"` // write: rows spread over this many hour partitions (1|2)
 	Mode  string `json:"mode,omitempty"`  // fail: "all" (until heal) | "next" (next N writes fail) | "after" (N more writes succeed, then all fail)
 	N     int    `json:"n,omitempty"`
-	Old   int    `json:"old,omitempty"` // age: the Old oldest WAL files become older than safeAge, all others middle-aged (>MinFileAge, <safeAge)
+	Old   int    `json:"old,omitempty"` // age: the Old oldest WAL files become older than safeAge, all others middle-aged (>MinFileAge, <safeAge); -1 = the leading files without unprotected rows
 }
 
 type c07History struct {
@@ -311,19 +311,21 @@ func c07ParquetIDs(data []byte) ([]int64, error) {
 
 type c07G struct{ workIdle, workGated, workBusy, walIdle, walBusy int }
 
+var c07DumpBuf = make([]byte, 1<<16) // only the harness goroutine dumps
+
 // c07Goroutines classifies the flush workers and the WAL writer loop from a
 // stop-the-world stack dump: idle = parked in their own top-level select,
 // gated = parked in the storage gate, busy = anything else (running, runnable,
 // parked deeper in a task).
 func c07Goroutines() c07G {
-	buf := make([]byte, 1<<18)
+	var buf []byte
 	for {
-		n := runtime.Stack(buf, true)
-		if n < len(buf) {
-			buf = buf[:n]
+		n := runtime.Stack(c07DumpBuf, true)
+		if n < len(c07DumpBuf) {
+			buf = c07DumpBuf[:n]
 			break
 		}
-		buf = make([]byte, 2*len(buf))
+		c07DumpBuf = make([]byte, 2*len(c07DumpBuf))
 	}
 	var g c07G
 	for _, blk := range strings.Split(string(buf), "\n\n") {
@@ -544,7 +546,16 @@ func (w *c07World) settle() {
 	deadline := time.Now().Add(120 * time.Second)
 	for spin := 0; ; spin++ {
 		g := c07Goroutines()
-		ok := g.workBusy == 0 && g.walBusy == 0
+		// positive identification: every goroutine we wait for must be SEEN parked
+		// (a goroutine that has not run yet shows up as an anonymous go-wrapper)
+		wantWorkers, wantWal := 0, 0
+		if w.buf != nil {
+			wantWorkers = w.cfg.Workers
+		}
+		if w.walW != nil {
+			wantWal = 1
+		}
+		ok := g.workBusy == 0 && g.walBusy == 0 && g.workIdle+g.workGated == wantWorkers && g.walIdle == wantWal
 		if ok && w.walW != nil && w.walW.VerifC07Pending() != 0 {
 			ok = false
 		}
@@ -557,10 +568,10 @@ func (w *c07World) settle() {
 		if time.Now().After(deadline) {
 			w.tb.Fatalf("HARNESS settle timeout: %+v queue=%d", g, w.buf.VerifC07QueueLen())
 		}
-		if spin < 50 {
+		if spin < 400 {
 			runtime.Gosched()
 		} else {
-			time.Sleep(200 * time.Microsecond)
+			time.Sleep(100 * time.Microsecond)
 		}
 	}
 }
@@ -709,6 +720,13 @@ func (w *c07World) doWrite(a c07Action) {
 		w.skip(a, "flush queue is full, a drop would follow ("+f+")")
 		return
 	}
+	if w.cfg.WAL && w.excluded(kfC07ReplayDup) && !w.backend.failing() && len(w.unprotected()) > 0 {
+		// rows written between the end of an outage and the replay tick share the replayed
+		// WAL files: they would be re-ingested although stored / still buffered
+		verifkit.CountExcluded(kfC07ReplayDup)
+		w.skip(a, "unreplayed rows of a failed flush exist and storage works: a new write would be duplicated by the replay ("+kfC07ReplayDup+")")
+		return
+	}
 	hours := a.Hours
 	if hours < 1 {
 		hours = 1
@@ -854,6 +872,20 @@ func (w *c07World) doAge(a c07Action) {
 	}
 	w.doFlushAll()
 	files := w.walFiles()
+	if a.Old < 0 {
+		// "safe prefix": the leading files that hold no unprotected row are older than safeAge
+		un := c07Set(w.unprotected())
+		a.Old = 0
+	prefix:
+		for _, f := range files {
+			for _, id := range f.ids {
+				if un[id] {
+					break prefix
+				}
+			}
+			a.Old++
+		}
+	}
 	for i, f := range files {
 		c := 1
 		if i < a.Old {
@@ -895,6 +927,7 @@ func (w *c07World) doTick() string {
 				return kfC07FlagReset
 			}
 			if flag && !f.active && f.class == 1 && hasKept && w.excluded(kfC07ReplayDup) {
+				w.tracef("tick blocked: replayable file %s holds ids=%v, some already stored/in memory", f.name, f.ids)
 				return kfC07ReplayDup
 			}
 		}
@@ -999,7 +1032,15 @@ func (w *c07World) terminal() {
 				break
 			}
 			w.doRotate(c07Action{})
-			w.doAge(c07Action{Kind: "age", Old: 0})
+			// Time passes. WAL files age in creation order, so "the k oldest files are older
+			// than safeAge" is a legitimate clock for every k; the terminal phase picks the
+			// k that lets maintenance drop the leading files whose rows are all safe before
+			// it replays the rest (any k must work for a correct implementation).
+			k := 0
+			if w.guards {
+				k = -1
+			}
+			w.doAge(c07Action{Kind: "age", Old: k})
 			if f := w.doTick(); f != "" {
 				w.res.Blocked = f
 				return
@@ -1109,17 +1150,17 @@ func c07Run(tb c07Fataler, h c07History, guards bool) c07Result {
 
 func c07GenHistory(t *rapid.T) c07History {
 	var h c07History
-	h.Cfg.WAL = rapid.IntRange(0, 3).Draw(t, "wal") != 0
+	h.Cfg.WAL = rapid.IntRange(0, 5).Draw(t, "wal") != 0
 	h.Cfg.QueueSize = rapid.SampledFrom([]int{1, 2, 2, 16}).Draw(t, "queue")
 	h.Cfg.Workers = rapid.IntRange(1, 2).Draw(t, "workers")
-	h.Cfg.MaxBuffer = rapid.IntRange(2, 6).Draw(t, "maxbuf")
-	h.Cfg.RotateEach = rapid.Bool().Draw(t, "rotateEach")
-	kinds := []string{"write", "write", "write", "write", "write", "write", "hold", "release", "fail", "fail", "heal", "heal",
-		"rotate", "rotate", "age", "age", "tick", "tick", "tick", "flush", "restart"}
+	h.Cfg.MaxBuffer = rapid.IntRange(2, 5).Draw(t, "maxbuf")
+	h.Cfg.RotateEach = rapid.IntRange(0, 5).Draw(t, "rotateEach") != 0 // 1 entry per WAL file (payload >= max size) vs one big file
+	kinds := []string{"write", "write", "write", "write", "write", "write", "write", "write", "hold", "release", "fail", "fail", "fail", "fail", "heal",
+		"rotate", "rotate", "age", "age", "tick", "tick", "tick", "flush", "restart", "recover", "recover", "recover"}
 	if !h.Cfg.WAL {
 		kinds = []string{"write", "write", "write", "write", "write", "hold", "release", "fail", "heal", "flush", "restart"}
 	}
-	n := rapid.IntRange(3, verifkit.Scale(22, 30)).Draw(t, "steps")
+	n := rapid.IntRange(4, verifkit.Scale(24, 32)).Draw(t, "steps")
 	for i := 0; i < n; i++ {
 		a := c07Action{Kind: rapid.SampledFrom(kinds).Draw(t, "kind")}
 		switch a.Kind {
@@ -1132,12 +1173,16 @@ func c07GenHistory(t *rapid.T) c07History {
 				a.Hours = 2
 			}
 		case "fail":
-			a.Mode = rapid.SampledFrom([]string{"all", "all", "next", "after"}).Draw(t, "mode")
+			a.Mode = rapid.SampledFrom([]string{"all", "all", "all", "next", "next", "after"}).Draw(t, "mode")
 			if a.Mode != "all" {
 				a.N = rapid.IntRange(1, 2).Draw(t, "n")
 			}
 		case "age":
-			a.Old = rapid.SampledFrom([]int{0, 0, 1, 2, 3, 99}).Draw(t, "old")
+			a.Old = rapid.SampledFrom([]int{-1, 0, 0, 1, 2, 3, 99}).Draw(t, "old")
+		case "recover":
+			// the outage ends and maintenance gets its chance: a plain sequence of primitive actions
+			h.Actions = append(h.Actions, c07Heal, c07Rotate, c07Action{Kind: "age", Old: -1}, c07Tick)
+			continue
 		}
 		h.Actions = append(h.Actions, a)
 	}
@@ -1189,6 +1234,10 @@ func c07Account(h c07History, r c07Result) {
 		verifkit.Class("mid-history-restart")
 	}
 	if r.Blocked != "" {
+		if os.Getenv("C07_DEBUG") != "" {
+			hb, _ := json.Marshal(h)
+			fmt.Printf("BLOCKED %s\nhistory=%s\n%s\n\n", r.Blocked, hb, strings.Join(r.Trace, "\n"))
+		}
 		verifkit.Class("terminal-blocked:" + r.Blocked)
 		verifkit.CountExcluded(r.Blocked)
 	}
@@ -1313,7 +1362,8 @@ func TestVerifKF_C07_close_drops_queued(t *testing.T) {
 	// same with the WAL on: the dropped tasks' WAL copies were purged by the hook that ran first
 	h2 := c07H(true, true, c07Hold, c07W("mp", 2, 1), c07W("mp", 2, 1), c07Restart)
 	r2 := c07Run(t, h2, false)
-	ok := c07Eq(r.Lost, 1, 2, 3, 4) && c07Eq(r2.Lost, 1, 2, 3, 4) && r.FlushFail == 1
+	// (whether the worker still attempts the queued task after the cancel is a coin flip of its select)
+	ok := c07Eq(r.Lost, 1, 2, 3, 4) && c07Eq(r2.Lost, 1, 2, 3, 4) && r.FlushFail >= 1
 	t.Logf("wal off: lost=%v trace:\n%s\nwal on: lost=%v", r.Lost, strings.Join(r.Trace, "\n"), r2.Lost)
 	verifkit.KnownFinding(kfC07CloseDropsQueue, ok, "ArrowBuffer.Close cancels the in-flight flush and abandons queued flush tasks")
 }
